@@ -25,6 +25,9 @@ CLAIMS = {
     "C06": ("complete enumeration (exhaustive: true): every tabulated callable of the 19 Lagrange element types (N and derivative tables 1-4) and of the 4 Hermite families is executed on sympy symbols; the observed polynomials are compared coefficient-wise with the Kronecker property, partition of unity, reproduction of all monomials up to the element order and with the exact derivatives of the observed N; the evaluation path (Get_*_pg for every matrix type, physical gradients on random affine elements) is tied to the tables numerically",
             "coefficient tolerance 1e-9 relative; observations of executions of the real callables, not a proof about source text",
             "polynomial-ring execution of the real table callables (identity between polynomials) + evaluation-path monitor"),
+    "C07": ("complete enumeration (exhaustive: true) of every tabulated rule x every monomial up to its documented degree against exact rational integrals (points inside, total weight, exactness; measured degree reported), of every (element type, matrix type) pair of the factory, plus seeded straight-sided meshes incl. general quads/hexas for measure, centroid, per-element measures and low-degree moments, and 1-4 element patches for the rank of the stiffness rule",
+            "documented degrees transcribed from the docstrings at the pinned commit; tolerance 1e-12 relative to the reference measure",
+            "reference-model oracle (exact rational monomial integrals, analytic polygon moments) on the real Gauss / Integrate_e callables"),
 }
 
 
